@@ -20,7 +20,7 @@ pub(crate) fn mk_client(name: NormalizedString, k: [u8; 40]) -> SrpClient {
 /// C05: the client draws a fresh challenge for every reconnect and proves knowledge of K over
 /// (name | own challenge | server challenge | K).
 #[kani::proof]
-#[kani::unwind(200)]
+#[kani::unwind(100)]
 #[kani::stub(core::str::from_utf8, verif_oracle::from_utf8_model)]
 fn c05_client_values() {
     let name = any_name(16);
@@ -62,7 +62,7 @@ pub(crate) fn mk_challenge(name: NormalizedString, m1: [u8; 20], a: PublicKey, k
 }
 
 #[kani::proof]
-#[kani::unwind(200)]
+#[kani::unwind(42)]
 #[kani::stub(core::str::from_utf8, verif_oracle::from_utf8_model)]
 #[kani::stub(crate::srp_internal::calculate_server_proof, sih::stub_server_proof)]
 fn c02_client_decision() {
@@ -97,7 +97,7 @@ fn c02_client_decision() {
 
 /// C03/C15/C01: SrpClientChallenge::new wires a fresh a, the announced group, the peer's B and salt into the leaves.
 #[kani::proof]
-#[kani::unwind(200)]
+#[kani::unwind(42)]
 #[kani::stub(core::str::from_utf8, verif_oracle::from_utf8_model)]
 #[kani::stub(crate::srp_internal_client::calculate_client_public_key, sch::stub_client_public_key)]
 #[kani::stub(crate::srp_internal::calculate_x, sih::stub_x)]
